@@ -101,6 +101,15 @@ func propC09(run *Run, n int) {
 	} {
 		addC09Tie(run, dw)
 	}
+	// fixed pairs whose strings and keys hold, LITERALLY, what encoding/json writes as escapes (backslash-u003c …):
+	// the rendered patch must carry them through untouched (a textual post-processing of the output would not)
+	for _, lit := range []string{"\\u003cb\\u003e", "\\u0026amp;", "a\\u003e\\\\u003cb", "\\n\\t\\\"", "<\\u003c>", "\\u2028", "\\/"} {
+		other := lit + "!"
+		addC09Case(run, VObj("snippet", VStr(lit), "n", VNum(1)), VObj("snippet", VStr(other), "n", VNum(1)), nil)
+		addC09Case(run, VArr(VStr(lit), VNum(2), VStr(lit)), VArr(VStr(lit), VNum(3), VStr(lit)), nil)
+		addC09Case(run, VObj(lit, VArr(VNum(1))), VObj(lit, VArr(VNum(1), VStr(lit))), nil)
+		run.Count("fixed:literal-escape-sequences")
+	}
 	for i := 0; i < n; i++ {
 		cfg := fmtCfg(r)
 		a, b := cfg.Pair(r)
